@@ -473,6 +473,8 @@ class Interp:
             return bool(v.v)
         if isinstance(v, TV) and v.is_py and v.poly is not None and v.poly.is_const():
             return v.poly.const_value() != 0
+        if isinstance(v, ListV) and v.it is not None:
+            return True  # an iterator object has no __bool__ / __len__: it is true whether or not anything is left in it
         if isinstance(v, ListV) and v.items is not None:
             return len(v.items) > 0
         if isinstance(v, DictV) and v.items is not None:
